@@ -564,6 +564,11 @@ def _ext_table(f):
                             nm = sub.func.attr if isinstance(sub.func, ast.Attribute) else (
                                 sub.func.id if isinstance(sub.func, ast.Name) else '')
                             calls.add(nm)
+                        # a reader / writer selected here and called later: the reference counts
+                        if isinstance(sub, ast.Name) and isinstance(sub.ctx, ast.Load):
+                            calls.add(sub.id)
+                        if isinstance(sub, ast.Attribute) and isinstance(sub.ctx, ast.Load):
+                            calls.add(sub.attr)
                 for e in exts:
                     table.setdefault(e.lstrip('.'), set()).update(calls)
     return table
